@@ -131,6 +131,21 @@ CAT.update(BIG)
 BL0 = {name: (block_len(toks) if name in BIG or name in ('req_get', 'resp200', 'req_get_b', 'trl') else -1) for name, toks in CAT.items()}
 
 
+# ---- single header fields by name: the alphabet from which the MC_HdrEnum* scenario models build header lists by edits
+TOK = {
+    'm_get': B(':method', 'GET'), 'm_head': B(':method', 'HEAD'), 'm_connect': B(':method', 'CONNECT'), 'scheme': B(':scheme', 'https'),
+    'auth': B(':authority', 'a.example'), 'auth_b': B(':authority', 'b.example'), 'auth_empty': B(':authority', ''),
+    'path': B(':path', '/'), 'path_empty': B(':path', ''), 'status200': B(':status', '200'), 'status100': B(':status', '100'),
+    'status204': B(':status', '204'), 'status_abc': B(':status', 'abc'), 'proto': B(':protocol', 'websocket'), 'custom': B(':foo', 'x'),
+    'xk': B('x-k', 'v1'), 'up': B('X-Up', 'v'), 'ws_name': B(' x-k', 'v'), 'ws_value': B('x-k', 'v '), 'conn': B('connection', 'close'),
+    'te_ok': B('te', 'trailers'), 'te_bad': B('te', 'gzip'), 'host_a': B('host', 'a.example'), 'host_b': B('host', 'b.example'),
+    'host_empty': B('host', ''), 'cookie_s': B('cookie', 'a=1'), 'cookie_l': B('cookie', 'bbbbbbbbbbbbbbbbbbbbbbbbbbbb=2'),
+    'cl3': B('content-length', '3'), 'cl_bad': B('content-length', 'abc'), 'empty_name': B('', 'v'), 'nonutf8': B('x-bin', '\xff\xfe'),
+    'authz': B('authorization', 'secret'), 's_xk': S('x-k', 'v1'), 's_method': S(':method', 'GET'), 'up_pseudo': B(':Method', 'GET'),
+    'pad_value': B('x-pad', ' v '), 'keepalive': B('Keep-Alive', 'x'),
+}
+
+
 def tla(v):
     if isinstance(v, bool):
         return 'TRUE' if v else 'FALSE'
@@ -163,11 +178,13 @@ def main():
         items.append('  %s |-> <<%s>>' % (name, ',\n      '.join(ts)))
     lines.append(',\n'.join(items))
     lines.append(']')
+    lines.append('\\* single header fields by name (the alphabet of the MC_HdrEnum* scenario models)')
+    lines.append('TOK == [' + ',\n  '.join('%s |-> [%s]' % (name, ', '.join('%s |-> %s' % (k, tla(v)) for k, v in t.items())) for name, t in TOK.items()) + ']')
     lines.append('\\* length of the HPACK block of a list when it is the first block of a fresh encoder (-1: not given)')
     lines.append('BL0 == [' + ', '.join('%s |-> %d' % (k, v) for k, v in BL0.items()) + ']')
     lines.append('=============================================================================')
     open(os.path.join(here, 'Cat.tla'), 'w').write('\n'.join(lines) + '\n')
-    json.dump(CAT, open(os.path.join(here, 'Cat.json'), 'w'), indent=0, sort_keys=True)
+    json.dump(dict(CAT, __tok__=TOK), open(os.path.join(here, 'Cat.json'), 'w'), indent=0, sort_keys=True)
 
 
 if __name__ == '__main__':
